@@ -33,6 +33,9 @@ type C17Case struct {
 	Y      float64       `json:"y,omitempty"`
 	Origin [2]string     `json:"origin,omitempty"`
 	Sep    string        `json:"sep,omitempty"`
+	// css: font size of the box; FontSize2 > 0: a second box of the same size follows, styled by the same rule
+	FontSize  float64 `json:"font_size,omitempty"`
+	FontSize2 float64 `json:"font_size2,omitempty"`
 }
 
 type m64 [6]float64 // a b c d e f, column vectors: x' = a x + c y + e ; y' = b x + d y + f
@@ -128,13 +131,22 @@ func genFn(t *rapid.T, svg bool) C17Fn {
 	}
 	length := func() {
 		u := "px"
-		if !svg && rapid.IntRange(0, 2).Draw(t, "pct") == 0 {
-			u = "%"
+		if !svg {
+			switch rapid.IntRange(0, 5).Draw(t, "pct") {
+			case 0, 1:
+				u = "%"
+			case 2:
+				u = "em" // relative to the font size of the transformed box
+			}
 		}
 		if svg {
 			u = ""
 		}
-		f.Args = append(f.Args, num(-60, 60))
+		v := num(-60, 60)
+		if u == "em" {
+			v = math.Round(v*10) / 100 // a few em
+		}
+		f.Args = append(f.Args, v)
 		f.Unit = append(f.Unit, u)
 	}
 	angle := func(forTan bool) {
@@ -227,6 +239,10 @@ func c17Gen(t *rapid.T, tier Tier) interface{} {
 		if c.Origin[0] == "" {
 			c.Origin[1] = ""
 		}
+		c.FontSize = rapid.SampledFrom([]float64{16, 16, 10, 30}).Draw(t, "fs")
+		if rapid.IntRange(0, 2).Draw(t, "shared") == 0 {
+			c.FontSize2 = rapid.SampledFrom([]float64{16, 8, 20, 40}).Draw(t, "fs2")
+		}
 	default:
 		c.Kind = "svg"
 		n := rapid.IntRange(1, 4).Draw(t, "n")
@@ -255,10 +271,16 @@ func angleToRad(v float64, unit string) float64 {
 }
 
 // specMatrix returns the matrix CSS Transforms 1 / SVG 1.1 define for one function.
-func specMatrix(f C17Fn, w, h float64) m64 {
+func specMatrix(f C17Fn, w, h float64) m64 { return specMatrixFont(f, w, h, 16) }
+
+// specMatrixFont: font is the font size of the box, in px (the reference of em lengths)
+func specMatrixFont(f C17Fn, w, h, font float64) m64 {
 	length := func(i int, ref float64) float64 {
-		if f.Unit[i] == "%" {
+		switch f.Unit[i] {
+		case "%":
 			return f.Args[i] * ref / 100
+		case "em":
+			return f.Args[i] * font
 		}
 		return f.Args[i]
 	}
@@ -510,8 +532,22 @@ func c17CSS(c *C17Case) Verdict {
 	if c.Origin[0] != "" {
 		origin = "transform-origin:" + c.Origin[0] + " " + c.Origin[1] + ";"
 	}
-	doc := fmt.Sprintf(`<!DOCTYPE html><html><head><style>@page{size:600px 600px;margin:0}html,body{margin:0;padding:0}</style></head><body><div style="margin:%gpx 0 0 %gpx;width:%gpx;height:%gpx;background:rgb(1,2,3);transform:%s;%s"></div></body></html>`,
-		c.Y, c.X, c.W, c.H, strings.Join(parts, " "), origin)
+	font := c.FontSize
+	if font == 0 {
+		font = 16
+	}
+	type c17Box struct{ x, y, font float64 }
+	boxes := []c17Box{{c.X, c.Y, font}}
+	var doc string
+	if c.FontSize2 > 0 {
+		// two boxes styled by one rule: the computed transform of each depends on its own font size
+		boxes = append(boxes, c17Box{c.X, c.Y + c.H, c.FontSize2})
+		doc = fmt.Sprintf(`<!DOCTYPE html><html><head><style>@page{size:600px 600px;margin:0}html,body{margin:0;padding:0}.t{width:%gpx;height:%gpx;margin-left:%gpx;background:rgb(1,2,3);transform:%s;%s}</style></head><body><div class="t" style="margin-top:%gpx;font-size:%gpx"></div><div class="t" style="font-size:%gpx"></div></body></html>`,
+			c.W, c.H, c.X, strings.Join(parts, " "), origin, c.Y, font, c.FontSize2)
+	} else {
+		doc = fmt.Sprintf(`<!DOCTYPE html><html><head><style>@page{size:600px 600px;margin:0}html,body{margin:0;padding:0}</style></head><body><div style="margin:%gpx 0 0 %gpx;width:%gpx;height:%gpx;font-size:%gpx;background:rgb(1,2,3);transform:%s;%s"></div></body></html>`,
+			c.Y, c.X, c.W, c.H, font, strings.Join(parts, " "), origin)
+	}
 	labels := []string{"kind:css"}
 	for _, f := range c.List {
 		labels = append(labels, "css:"+f.Name)
@@ -524,24 +560,12 @@ func c17CSS(c *C17Case) Verdict {
 	if c.Origin[0] != "" {
 		labels = append(labels, "origin-set")
 	}
+	if len(boxes) == 2 {
+		labels = append(labels, "shared-rule")
+	}
 	r, err := wr.Render(doc, wr.Opts{})
 	if err != nil {
 		return Verdict{Excluded: "html-rejected", Labels: labels}
-	}
-	// expected
-	ox := c.X + originOffset(c.Origin[0], c.W, c.W/2)
-	oy := c.Y + originOffset(c.Origin[1], c.H, c.H/2)
-	if c.Origin[0] != "" && c.Origin[1] == "" {
-		oy = c.Y + c.H/2
-	}
-	exp := m64{1, 0, 0, 1, ox, oy}
-	for _, f := range c.List {
-		exp = mul64(exp, specMatrix(f, c.W, c.H))
-	}
-	exp = mul64(exp, m64{1, 0, 0, 1, -ox, -oy})
-	det := exp[0]*exp[3] - exp[1]*exp[2]
-	if math.Abs(det) < 1e-4 {
-		return Verdict{Excluded: "singular-list", Labels: labels}
 	}
 	var got []m64
 	n := 0
@@ -553,23 +577,53 @@ func c17CSS(c *C17Case) Verdict {
 			}
 		}
 	}
-	if ok, _ := close64(exp, m64{1, 0, 0, 1, 0, 0}, 1); ok && len(got) == 0 {
+	// expected, box by box (painted in tree order)
+	var exps []m64
+	var scales []float64
+	for _, b := range boxes {
+		ox := b.x + originOffset(c.Origin[0], c.W, c.W/2)
+		oy := b.y + originOffset(c.Origin[1], c.H, c.H/2)
+		if c.Origin[0] != "" && c.Origin[1] == "" {
+			oy = b.y + c.H/2
+		}
+		exp := m64{1, 0, 0, 1, ox, oy}
+		scale := 1.0
+		for _, f := range c.List {
+			m := specMatrixFont(f, c.W, c.H, b.font)
+			exp = mul64(exp, m)
+			scale *= math.Max(1, norm(m))
+		}
+		exp = mul64(exp, m64{1, 0, 0, 1, -ox, -oy})
+		det := exp[0]*exp[3] - exp[1]*exp[2]
+		if math.Abs(det) < 1e-4 {
+			return Verdict{Excluded: "singular-list", Labels: labels}
+		}
+		exps = append(exps, exp)
+		scales = append(scales, scale*math.Max(1, math.Abs(ox)+math.Abs(oy)))
+	}
+	identity := true
+	for _, exp := range exps {
+		if ok, _ := close64(exp, m64{1, 0, 0, 1, 0, 0}, 1); !ok {
+			identity = false
+		}
+	}
+	if identity && len(got) == 0 {
 		return Verdict{Labels: append(labels, "identity-list")}
 	}
-	if len(got) != 1 {
-		return Viol("css:transform-calls", "expected exactly one Transform call for the box, got %d\n%s", len(got), doc)
+	if len(got) != len(boxes) {
+		return Viol("css:transform-calls", "expected exactly one Transform call per box (%d), got %d\n%s", len(boxes), len(got), doc)
 	}
-	scale := 1.0
-	for _, f := range c.List {
-		scale *= math.Max(1, norm(specMatrix(f, c.W, c.H)))
-	}
-	scale *= math.Max(1, math.Abs(ox)+math.Abs(oy))
-	if ok, d := close64(got[0], exp, scale*5); !ok {
-		sig := "css:matrix"
-		if len(c.List) == 1 {
-			sig += ":" + c.List[0].Name
+	for i, exp := range exps {
+		if ok, d := close64(got[i], exp, scales[i]*5); !ok {
+			sig := "css:matrix"
+			if len(c.List) == 1 {
+				sig += ":" + c.List[0].Name
+			}
+			if i > 0 {
+				sig += ":second-box-of-a-rule"
+			}
+			return Viol(sig, "transform %q origin %v on box %d (%gx%g at (%g,%g), font-size %gpx): backend got %v, specification gives %v (|d|=%g)\n%s", strings.Join(parts, " "), c.Origin, i, c.W, c.H, boxes[i].x, boxes[i].y, boxes[i].font, got[i], exp, d, doc)
 		}
-		return Viol(sig, "transform %q origin %v on a %gx%g box at (%g,%g): backend got %v, specification gives %v (|d|=%g)", strings.Join(parts, " "), c.Origin, c.W, c.H, c.X, c.Y, got[0], exp, d)
 	}
 	nt := len(c.List) >= 2 || c.Origin[0] != ""
 	for _, f := range c.List {
